@@ -40,8 +40,8 @@ static int nclients, ntasks;
 static void log_time(const char *k, uint64_t ns) {
     long long v[2];
     uint64_t d = ns >= t0 ? ns - t0 : 0;
-    v[0] = (long long)(d / 1000);
-    v[1] = (long long)(d % 1000);
+    v[0] = (long long)(d / 1000000000ull); /* seconds and nanoseconds: both fit TLC's 32-bit integers */
+    v[1] = (long long)(d % 1000000000ull);
     vh_ints(k, v, 2);
 }
 
